@@ -449,7 +449,11 @@ pub async fn run_script(case: &Case) -> CaseOut {
                     let every = 1 + (*every as u64 % (TIMEOUT - 1));
                     let mut waited = 0u64;
                     let mut n = 0u8;
-                    while waited <= TIMEOUT + every {
+                    // a deadline that interference can push back a bounded number of times is still a deadline; one that
+                    // every fragment restarts is a wedge: four times the response timeout separates the two
+                    while waited <= 4 * TIMEOUT + every
+                        && (waited <= TIMEOUT + every || p.outcomes().is_empty())
+                    {
                         match kind % 4 {
                             0 => {
                                 let f = Fragment {
@@ -506,7 +510,7 @@ pub async fn run_script(case: &Case) -> CaseOut {
                             Fail::new(
                                 "request-outlives-its-timeout",
                                 format!(
-                                    "a user request (function {want_func}) transmitted {waited} ms ago and never answered is still pending although the response timeout is {TIMEOUT} ms; the outstation sent {} every {every} ms in the meantime",
+                                    "a user request (function {want_func}) transmitted {waited} ms ago and never answered is still pending although the response timeout is {TIMEOUT} ms (four times that have passed); the outstation sent {} every {every} ms in the meantime",
                                     ["null unsolicited responses", "responses with other sequence numbers", "link status requests", "frames from an unknown outstation"][*kind as usize % 4]
                                 ),
                             )
